@@ -82,7 +82,7 @@ def run(rep, tier):
     ]
     plan = []
     if tier == 'quick':
-        plan.append(('estimates, config ball radius 1, <=2 deviations', [to_cfg(c) for c in ball(1)], 2))
+        plan.append(('estimates (first four letters), config ball radius 1, <=2 deviations', [to_cfg(c, est_n=4) for c in ball(1)], 2))
         plan.append(('direct restart requests, P in 2..3, <=3 requests', [cfg(P=P, adaptive=None, restart_script=True, restarting={'max_restarts': m, 'restart_from_first_step': ff}) for P in (2, 3) for m in (1, 2) for ff in (False, True)], 3))
     else:
         plan.append(('estimates, config ball radius 2, <=2 deviations', [to_cfg(c) for c in ball(2)], 2))
